@@ -128,8 +128,10 @@ impl RefState {
                 }
                 self.m = h.beta1 * self.m + (one - h.beta1) * g;
                 self.v = h.beta2 * self.v + (one - h.beta2) * (g * g);
-                let m = self.m / (one - powi(h.beta1, stepnr));
-                let v = self.v / (one - powi(h.beta2, stepnr));
+                // `beta.powi(t)`: a product chain for a symbolic beta (same as `powi` above), the platform's powi for a constant
+                let _ = powi;
+                let m = self.m / (one - h.beta1.powi(stepnr));
+                let v = self.v / (one - h.beta2.powi(stepnr));
                 w - h.lr * m / (v.sqrt() + h.eps)
             }
             Kind::RMSprop { decay, momentum, centered } => {
@@ -228,6 +230,42 @@ pub fn rule_case_h(kind: Kind, rk: Rk, steps: Vec<i32>, closed_end: bool) -> Cas
                 }
                 let got = elems(&w);
                 ctx.fact(&format!("step{}-shape", k), got.len() == n && dims(&w) == dims(&rk.zeros()), format!("{:?}", dims(&w)));
+                for i in 0..n.min(got.len()) {
+                    ctx.eq(&format!("step{}-param[{}]", k, i), got[i], refw[i]);
+                }
+            }
+        }),
+    }
+}
+
+/// (a') the rule far into a run: concrete hyper-parameters (learning rate 0.5 so that a step is of the order of the
+/// parameters), step numbers in the thousands — "all step counts and step-number sequences >= 1"
+pub fn late_rule_case(kind: Kind, rk: Rk, steps: Vec<i32>) -> Case {
+    let st: Vec<String> = steps.iter().map(|s| s.to_string()).collect();
+    Case {
+        id: format!("C03/rule-late/{}/{}/steps{}", kind.tag(), rk.tag(), st.join("-")),
+        property: "C03",
+        family: kind.family(),
+        class: "rule".into(),
+        no_ties: false,
+        max_paths: 64,
+        run: Box::new(move |ctx| {
+            let h = conc_hyper(0.5, 0.01, 0.99, 0.9, 0.999, 1e-8);
+            let mut opt = build(kind, &h);
+            alloc(&mut opt, 1, 1, rk);
+            let n = rk.n();
+            let w0 = v1(ctx, "w", n);
+            let mut w = rk.wrap(&w0);
+            let mut refw = w0.clone();
+            let mut st: Vec<RefState> = (0..n).map(|_| RefState::new()).collect();
+            for (k, stepnr) in steps.iter().enumerate() {
+                let g = v1(ctx, &format!("g{}", k), n);
+                let mut gt = rk.wrap(&g);
+                opt.update(0, 0, false, *stepnr, &mut w, &mut gt);
+                for i in 0..n {
+                    refw[i] = st[i].step(kind, &h, *stepnr, refw[i], g[i]);
+                }
+                let got = elems(&w);
                 for i in 0..n.min(got.len()) {
                     ctx.eq(&format!("step{}-param[{}]", k, i), got[i], refw[i]);
                 }
@@ -575,6 +613,13 @@ pub fn cases(tier: Tier, seed: u64) -> Vec<Case> {
     }
     for kind in [Kind::SGDM { decay: true, dampening: true }, Kind::Adam { decay: true }, Kind::RMSprop { decay: true, momentum: true, centered: true }] {
         out.push(network_slots_case(kind));
+    }
+    // step numbers in the thousands
+    for (ki, kind) in [Kind::Adam { decay: false }, Kind::AdamW, Kind::SGDM { decay: false, dampening: true }, Kind::RMSprop { decay: false, momentum: true, centered: false }].into_iter().enumerate() {
+        let late: Vec<Vec<i32>> = if full { vec![vec![1001], vec![1, 1500], vec![16000], vec![999, 1000], vec![100000]] } else { vec![vec![1001], vec![1, 1500]] };
+        for (si, steps) in late.into_iter().enumerate() {
+            out.push(late_rule_case(kind, ranks[(ki + si + seed as usize) % 3], steps));
+        }
     }
     for kind in [Kind::Adam { decay: false }, Kind::SGDM { decay: false, dampening: false }, Kind::RMSprop { decay: false, momentum: true, centered: false }] {
         out.push(feedback_slots_case(kind));
